@@ -27,7 +27,7 @@ for d in dirs:
         return i, {"exit": r.returncode, "violations": lines[:4]}
     k, v = one(ids[0])          # the first run fills the fact cache for this tree
     row[k] = v
-    with ThreadPoolExecutor(8) as ex:
+    with ThreadPoolExecutor(14) as ex:
         for k, v in ex.map(one, ids[1:]):
             row[k] = v
     res[d] = row
